@@ -1,9 +1,17 @@
 /-
-Helper lemmas for C20 (Props/C20.lean): the straight-line effect of every piece of
-`Model/Codegen` as a Hoare-style judgment `Sem m r x d`:
+Helper lemmas for C20 (Props/C20.lean): the effect of every piece of `Model/Codegen` as a
+Hoare-style judgment `SemP P m r x d`:
 
-  whenever the code generator `m` succeeds, the lines it printed are straight-line code with
-  effect (Δrsp = r, Δx87 = x) and the `depth` counter has changed by `d`.
+  whenever the code generator `m` succeeds, the lines it printed satisfy `P ls r x` — code with
+  effect (Δrsp = r, Δx87 = x) — and the `depth` counter has changed by `d`.
+
+`P` is a *code predicate* (`CodePred`): any predicate on printed code that holds of straight-line
+code with its `delta` and is closed under concatenation.  Two instances are used:
+* `Straight` (`delta ls = some ⟨r, x⟩`: no label, no jump) — `Sem m r x d`, the judgment of the
+  straight-line theorems (`covE/covA/covS`);
+* `FlowP` (Lemmas/C20Flow.lean: one height per label, every jump and fall-through arrives at its
+  label's height) — the judgment of the theorems about code with labels.
+Every arm lemma below is proved once, for every code predicate, from the rules of the judgment.
 -/
 import ChibiVerif.Model.Codegen
 import ChibiVerif.Model.Effect
@@ -13,21 +21,46 @@ import ChibiVerif.Model.C20Scope
 namespace ChibiVerif.Lemmas.C20
 open ChibiVerif ChibiVerif.Codegen ChibiVerif.Effect ChibiVerif.Asm ChibiVerif.Ast ChibiVerif.C20Scope
 
-def Sem (m : M α) (r x d : Int) : Prop :=
-  ∀ s a s' ls, m s = .ok (a, s', ls) → delta ls = some ⟨r, x⟩ ∧ s'.depth = s.depth + d
+/-- a predicate on printed code and an (rsp, x87) effect that holds of straight-line code with its
+    `delta` and is closed under concatenation -/
+class CodePred (P : List Line → Int → Int → Prop) : Prop where
+  lines : ∀ {ls : List Line} {r x : Int}, delta ls = some ⟨r, x⟩ → P ls r x
+  append : ∀ {a b : List Line} {r1 x1 r2 x2 : Int}, P a r1 x1 → P b r2 x2 → P (a ++ b) (r1 + r2) (x1 + x2)
 
-theorem Sem.cast {m : M α} (h : Sem m r x d) (hr : r = r') (hx : x = x') (hd : d = d') :
-    Sem m r' x' d' := by
+/-- straight-line code with effect (r, x) -/
+def Straight (ls : List Line) (r x : Int) : Prop := delta ls = some ⟨r, x⟩
+
+instance : CodePred Straight where
+  lines h := h
+  append := by
+    intro a b r1 x1 r2 x2 h1 h2
+    unfold Straight at *
+    rw [delta_append, h1, h2]
+    simp [H.add_def]
+
+def SemP (P : List Line → Int → Int → Prop) (m : M α) (r x d : Int) : Prop :=
+  ∀ s a s' ls, m s = .ok (a, s', ls) → P ls r x ∧ s'.depth = s.depth + d
+
+/-- the straight-line judgment -/
+abbrev Sem (m : M α) (r x d : Int) : Prop := SemP Straight m r x d
+
+variable {K : List Line → Int → Int → Prop} [CodePred K]
+
+omit [CodePred K] in
+theorem SemP.cast {m : M α} (h : SemP K m r x d) (hr : r = r') (hx : x = x') (hd : d = d') :
+    SemP K m r' x' d' := by
   subst hr hx hd; exact h
 
-theorem Sem_pure (a : α) : Sem (pure a : M α) 0 0 0 := by
+theorem P_nil : K [] 0 0 := CodePred.lines (by simp [delta, H.zero])
+
+theorem Sem_pure (a : α) : SemP K (pure a : M α) 0 0 0 := by
   intro s a' s' ls h
   simp only [pure, M.pure, Except.ok.injEq, Prod.mk.injEq] at h
   obtain ⟨_, rfl, rfl⟩ := h
-  simp [delta, H.zero]
+  exact ⟨P_nil, by simp⟩
 
-theorem Sem_bind {m : M α} {f : α → M β} (h1 : Sem m r1 x1 d1) (h2 : ∀ a, Sem (f a) r2 x2 d2) :
-    Sem (m >>= f) (r1 + r2) (x1 + x2) (d1 + d2) := by
+theorem Sem_bind {m : M α} {f : α → M β} (h1 : SemP K m r1 x1 d1) (h2 : ∀ a, SemP K (f a) r2 x2 d2) :
+    SemP K (m >>= f) (r1 + r2) (x1 + x2) (d1 + d2) := by
   intro s b s' ls h
   simp only [bind, M.bind] at h
   split at h
@@ -40,13 +73,12 @@ theorem Sem_bind {m : M α} {f : α → M β} (h1 : Sem m r1 x1 d1) (h2 : ∀ a,
       obtain ⟨rfl, rfl, rfl⟩ := h
       obtain ⟨e1, e2⟩ := h1 _ _ _ _ hm
       obtain ⟨e3, e4⟩ := h2 a _ _ _ _ hf
-      rw [delta_append, e1, e3]
-      simp [H.add_def, e4, e2, Int.add_assoc]
+      exact ⟨CodePred.append e1 e3, by simp [e4, e2, Int.add_assoc]⟩
 
 /-- the continuation may use what the first action returned, as long as it succeeded with it -/
-theorem Sem_bind' {m : M α} {f : α → M β} (h1 : Sem m r1 x1 d1)
-    (h2 : ∀ a s s' l, m s = .ok (a, s', l) → Sem (f a) r2 x2 d2) :
-    Sem (m >>= f) (r1 + r2) (x1 + x2) (d1 + d2) := by
+theorem Sem_bind' {m : M α} {f : α → M β} (h1 : SemP K m r1 x1 d1)
+    (h2 : ∀ a s s' l, m s = .ok (a, s', l) → SemP K (f a) r2 x2 d2) :
+    SemP K (m >>= f) (r1 + r2) (x1 + x2) (d1 + d2) := by
   intro s b s' ls h
   simp only [bind, M.bind] at h
   split at h
@@ -59,53 +91,53 @@ theorem Sem_bind' {m : M α} {f : α → M β} (h1 : Sem m r1 x1 d1)
       obtain ⟨rfl, rfl, rfl⟩ := h
       obtain ⟨e1, e2⟩ := h1 _ _ _ _ hm
       obtain ⟨e3, e4⟩ := h2 a _ _ _ hm _ _ _ _ hf
-      rw [delta_append, e1, e3]
-      simp [H.add_def, e4, e2, Int.add_assoc]
+      exact ⟨CodePred.append e1 e3, by simp [e4, e2, Int.add_assoc]⟩
 
-theorem Sem_fail (msg : String) : Sem (fail msg : M α) r x d := by
+omit [CodePred K] in
+theorem Sem_fail (msg : String) : SemP K (fail msg : M α) r x d := by
   intro s a s' ls h; cases h
 
-theorem Sem_emit {l : Line} (h : lineDelta l = some ⟨r, x⟩) : Sem (emit l) r x 0 := by
+theorem Sem_emit {l : Line} (h : lineDelta l = some ⟨r, x⟩) : SemP K (emit l) r x 0 := by
   intro s a s' ls hm
   simp only [emit, Except.ok.injEq, Prod.mk.injEq] at hm
   obtain ⟨_, rfl, rfl⟩ := hm
-  simp [delta, h, H.zero]
+  exact ⟨CodePred.lines (by simp [delta, h, H.zero]), by simp⟩
 
-theorem Sem_emits {ls : List Line} (h : delta ls = some ⟨r, x⟩) : Sem (emits ls) r x 0 := by
+theorem Sem_emits {ls : List Line} (h : delta ls = some ⟨r, x⟩) : SemP K (emits ls) r x 0 := by
   intro s a s' l hm
   simp only [emits, Except.ok.injEq, Prod.mk.injEq] at hm
   obtain ⟨_, rfl, rfl⟩ := hm
-  simp [h]
+  exact ⟨CodePred.lines h, by simp⟩
 
-theorem Sem_addDepth (k : Int) : Sem (addDepth k) 0 0 k := by
+theorem Sem_addDepth (k : Int) : SemP K (addDepth k) 0 0 k := by
   intro s a s' ls h
   simp only [addDepth, Except.ok.injEq, Prod.mk.injEq] at h
   obtain ⟨_, rfl, rfl⟩ := h
-  simp [delta, H.zero]
+  exact ⟨P_nil, by simp⟩
 
-theorem Sem_getDepth : Sem getDepth 0 0 0 := by
+theorem Sem_getDepth : SemP K getDepth 0 0 0 := by
   intro s a s' ls h
   simp only [getDepth, Except.ok.injEq, Prod.mk.injEq] at h
   obtain ⟨_, rfl, rfl⟩ := h
-  simp [delta, H.zero]
+  exact ⟨P_nil, by simp⟩
 
-theorem Sem_count : Sem count 0 0 0 := by
+theorem Sem_count : SemP K count 0 0 0 := by
   intro s a s' ls h
   simp only [count, Except.ok.injEq, Prod.mk.injEq] at h
   obtain ⟨_, rfl, rfl⟩ := h
-  simp [delta, H.zero]
+  exact ⟨P_nil, by simp⟩
 
-theorem Sem_liftE (e : Except String α) : Sem (liftE e) 0 0 0 := by
+theorem Sem_liftE (e : Except String α) : SemP K (liftE e) 0 0 0 := by
   cases e with
   | error m => exact Sem_fail m
   | ok a => exact Sem_pure a
 
-theorem Sem_needTy (w : String) (t : Option Ty) : Sem (needTy w t) 0 0 0 := by
+theorem Sem_needTy (w : String) (t : Option Ty) : SemP K (needTy w t) 0 0 0 := by
   cases t with
   | none => exact Sem_fail _
   | some t => exact Sem_pure t
 
-theorem Sem_needVar (w : String) (t : Option Var) : Sem (needVar w t) 0 0 0 := by
+theorem Sem_needVar (w : String) (t : Option Var) : SemP K (needVar w t) 0 0 0 := by
   cases t with
   | none => exact Sem_fail _
   | some t => exact Sem_pure t
@@ -119,7 +151,7 @@ theorem needTy_eq {w : String} {t : Option Ty} {a : Ty} {s s' : St} {l : List Li
     simp only [needTy, pure, M.pure, Except.ok.injEq, Prod.mk.injEq] at h
     rw [h.1]
 
-theorem Sem_argreg (tbl : List String) (r : Int) : Sem (argreg tbl r) 0 0 0 := by
+theorem Sem_argreg (tbl : List String) (r : Int) : SemP K (argreg tbl r) 0 0 0 := by
   unfold argreg
   split
   · exact Sem_fail _
@@ -127,12 +159,12 @@ theorem Sem_argreg (tbl : List String) (r : Int) : Sem (argreg tbl r) 0 0 0 := b
     · exact Sem_pure _
     · exact Sem_fail _
 
-theorem Sem_regAx (sz : Int) : Sem (regAx sz) 0 0 0 := by
+theorem Sem_regAx (sz : Int) : SemP K (regAx sz) 0 0 0 := by
   unfold regAx
   repeat' split
   all_goals first | exact Sem_pure _ | exact Sem_fail _
 
-theorem Sem_regDx (sz : Int) : Sem (regDx sz) 0 0 0 := by
+theorem Sem_regDx (sz : Int) : SemP K (regDx sz) 0 0 0 := by
   unfold regDx
   repeat' split
   all_goals first | exact Sem_pure _ | exact Sem_fail _
@@ -180,31 +212,31 @@ theorem xOf_eq_of_isLD {a b : Option Ty} (h : isLD a = isLD b) : xOf a = xOf b :
 theorem xOf_zero {a : Option Ty} (h : isLD a = false) : xOf a = 0 := by simp [xOf, h]
 theorem xOf_one {a : Option Ty} (h : isLD a = true) : xOf a = 1 := by simp [xOf, h]
 
-theorem Sem_nullDeref (w : String) : Sem (nullDeref w : M α) r x d := Sem_fail _
+theorem Sem_nullDeref (w : String) : SemP K (nullDeref w : M α) r x d := Sem_fail _
 
 /-- first action carries the effect, the rest has none -/
-theorem Sem_bind_l {m : M α} {f : α → M β} (h1 : Sem m r x d) (h2 : ∀ a, Sem (f a) 0 0 0) :
-    Sem (m >>= f) r x d :=
+theorem Sem_bind_l {m : M α} {f : α → M β} (h1 : SemP K m r x d) (h2 : ∀ a, SemP K (f a) 0 0 0) :
+    SemP K (m >>= f) r x d :=
   (Sem_bind h1 h2).cast (by omega) (by omega) (by omega)
 
 -- from here on `Sem` is opaque to `intro`/`apply`: the judgment is only built with the rules above
-attribute [irreducible] Sem
+attribute [irreducible] SemP
 
 /-! ### tactic: derive `Sem m r x d` top-down -/
 
 /-- top-down sequencing: the first action is a leaf with a known effect, the continuation must
     account for the remainder of the target -/
-theorem Sem_bind_td {m : M α} {f : α → M β} {r x d r1 x1 d1 : Int} (h1 : Sem m r1 x1 d1)
-    (h2 : ∀ a, Sem (f a) (r - r1) (x - x1) (d - d1)) : Sem (m >>= f) r x d :=
+theorem Sem_bind_td {m : M α} {f : α → M β} {r x d r1 x1 d1 : Int} (h1 : SemP K m r1 x1 d1)
+    (h2 : ∀ a, SemP K (f a) (r - r1) (x - x1) (d - d1)) : SemP K (m >>= f) r x d :=
   (Sem_bind h1 h2).cast (by omega) (by omega) (by omega)
 
-theorem Sem_bind0 {m : M α} {f : α → M β} (h1 : Sem m 0 0 0) (h2 : ∀ a, Sem (f a) r x d) :
-    Sem (m >>= f) r x d :=
+theorem Sem_bind0 {m : M α} {f : α → M β} (h1 : SemP K m 0 0 0) (h2 : ∀ a, SemP K (f a) r x d) :
+    SemP K (m >>= f) r x d :=
   (Sem_bind h1 h2).cast (by omega) (by omega) (by omega)
 
 /-- `let t ← needTy w ty?; f t`: the continuation sees the type that was passed -/
 theorem Sem_needTy_bind {w : String} {ty? : Option Ty} {f : Ty → M β}
-    (h : ∀ t, ty? = some t → Sem (f t) r x d) : Sem (needTy w ty? >>= f) r x d := by
+    (h : ∀ t, ty? = some t → SemP K (f t) r x d) : SemP K (needTy w ty? >>= f) r x d := by
   refine (Sem_bind' (Sem_needTy w ty?) (fun a s s' l hm => h a (needTy_eq hm))).cast ?_ ?_ ?_ <;> omega
 
 theorem needVar_eq {w : String} {t : Option Var} {a : Var} {s s' : St} {l : List Line}
@@ -216,7 +248,7 @@ theorem needVar_eq {w : String} {t : Option Var} {a : Var} {s s' : St} {l : List
     rw [h.1]
 
 theorem Sem_needVar_bind {w : String} {v? : Option Var} {f : Var → M β}
-    (h : ∀ v, v? = some v → Sem (f v) r x d) : Sem (needVar w v? >>= f) r x d := by
+    (h : ∀ v, v? = some v → SemP K (f v) r x d) : SemP K (needVar w v? >>= f) r x d := by
   refine (Sem_bind' (Sem_needVar w v?) (fun a s s' l hm => h a (needVar_eq hm))).cast ?_ ?_ ?_ <;> omega
 
 /-- a leaf: an action whose effect is known (rules are added to this tactic as lemmas are proved) -/
@@ -249,7 +281,7 @@ macro_rules
   | `(tactic| sem) => `(tactic| repeat' (first
       | exact Sem_fail _
       | exact Sem_nullDeref _
-      | (refine Sem.cast (by sem_leaf) ?_ ?_ ?_ <;> sem_arith)
+      | (refine SemP.cast (by sem_leaf) ?_ ?_ ?_ <;> sem_arith)
       | (refine Sem_bind_td (by sem_leaf) (fun _ => ?_))
       | dsimp only
       | split
@@ -257,26 +289,26 @@ macro_rules
 
 /-! ### push / pop / discard / loc -/
 
-theorem Sem_push : Sem push (-8) 0 1 := by unfold push; sem
-theorem Sem_pop (a : String) (h : a ≠ "%rsp") : Sem (pop a) 8 0 (-1) := by
+theorem Sem_push : SemP K push (-8) 0 1 := by unfold push; sem
+theorem Sem_pop (a : String) (h : a ≠ "%rsp") : SemP K (pop a) 8 0 (-1) := by
   unfold pop
   have : lineDelta (ins1 "pop" (.r a)) = some ⟨8, 0⟩ := by
     simp [lineDelta, ins1, insDelta, dstIsRsp, isRsp, h]
-  have := Sem_emit this
+  have := Sem_emit (K := K) this
   sem
-theorem Sem_pushf : Sem pushf (-8) 0 1 := by unfold pushf; sem
-theorem Sem_popf (n : Nat) : Sem (popf n) 8 0 (-1) := by unfold popf; sem
+theorem Sem_pushf : SemP K pushf (-8) 0 1 := by unfold pushf; sem
+theorem Sem_popf (n : Nat) : SemP K (popf n) 8 0 (-1) := by unfold popf; sem
 
 theorem xOf_some (t : Ty) : xOf (some t) = if t.kind = .ldouble then 1 else 0 := by
   simp [xOf, isLD]
 
-theorem Sem_discard (t : Option Ty) : Sem (Codegen.discard t) 0 (-(xOf t)) 0 := by
+theorem Sem_discard (t : Option Ty) : SemP K (Codegen.discard t) 0 (-(xOf t)) 0 := by
   unfold Codegen.discard
   cases t with
   | none => exact (Sem_pure ()).cast rfl (by simp [xOf, isLD]) rfl
   | some t => rw [xOf_some]; sem
 
-theorem Sem_loc (i : NInfo) : Sem (loc i) 0 0 0 := by unfold loc; exact Sem_emit rfl
+theorem Sem_loc (i : NInfo) : SemP K (loc i) 0 0 0 := by unfold loc; exact Sem_emit rfl
 
 macro_rules
   | `(tactic| sem_leaf) => `(tactic| first
@@ -285,16 +317,16 @@ macro_rules
 
 /-! ### gen_addr leaf, load, store, cmp_zero -/
 
-theorem Sem_addrVar (env : Env) (i : NInfo) (v : Option Var) : Sem (addrVar env i v) 0 0 0 := by
+theorem Sem_addrVar (env : Env) (i : NInfo) (v : Option Var) : SemP K (addrVar env i v) 0 0 0 := by
   unfold addrVar
   sem
 
-theorem Sem_addrMember {a : M Unit} (h : Sem a 0 0 0) (mem : Option Member) :
-    Sem (addrMember a mem) 0 0 0 := by
+theorem Sem_addrMember {a : M Unit} (h : SemP K a 0 0 0) (mem : Option Member) :
+    SemP K (addrMember a mem) 0 0 0 := by
   unfold addrMember
   sem
 
-theorem Sem_load (ty? : Option Ty) : Sem (load ty?) 0 (xOf ty?) 0 := by
+theorem Sem_load (ty? : Option Ty) : SemP K (load ty?) 0 (xOf ty?) 0 := by
   unfold load
   refine Sem_needTy_bind fun ty hty => ?_
   subst hty
@@ -312,24 +344,24 @@ theorem delta_copyBytes (src tmp dst : String) (hs : tmp ≠ "%rsp") (i n : Nat)
     simp [copyBytes, delta, h1, h2, ih]
 
 theorem Sem_copyBytes (src tmp dst : String) (hs : tmp ≠ "%rsp") (i n : Nat) :
-    Sem (emits (copyBytes src tmp dst i n)) 0 0 0 :=
+    SemP K (emits (copyBytes src tmp dst i n)) 0 0 0 :=
   Sem_emits (delta_copyBytes src tmp dst hs i n)
 
 macro_rules
   | `(tactic| sem_leaf) => `(tactic| exact Sem_copyBytes _ _ _ (by decide) _ _)
 
-theorem Sem_store (ty? : Option Ty) : Sem (store ty?) 8 0 (-1) := by
+theorem Sem_store (ty? : Option Ty) : SemP K (store ty?) 8 0 (-1) := by
   unfold store
   sem
 
-theorem Sem_cmpZeroTail : Sem (emits cmpZeroTail) 0 0 0 := Sem_emits rfl
+theorem Sem_cmpZeroTail : SemP K (emits cmpZeroTail) 0 0 0 := Sem_emits rfl
 
-theorem Sem_cmpZero (ty? : Option Ty) : Sem (cmpZero ty?) 0 (-(xOf ty?)) 0 := by
+theorem Sem_cmpZero (ty? : Option Ty) : SemP K (cmpZero ty?) 0 (-(xOf ty?)) 0 := by
   unfold cmpZero
   refine Sem_needTy_bind fun ty hty => ?_
   subst hty
   rw [xOf_some]
-  have := Sem_cmpZeroTail
+  have := Sem_cmpZeroTail (K := K)
   sem
 
 macro_rules
@@ -356,7 +388,7 @@ theorem f80_getTypeId (k : TyKind) (u : Bool) :
     f80 (Gen.CastTable.getTypeId k u) = if k = .ldouble then 1 else 0 := by
   cases k <;> cases u <;> decide
 
-theorem Sem_cast (from? to? : Option Ty) : Sem (Codegen.cast from? to?) 0 (xOf to? - xOf from?) 0 := by
+theorem Sem_cast (from? to? : Option Ty) : SemP K (Codegen.cast from? to?) 0 (xOf to? - xOf from?) 0 := by
   unfold Codegen.cast
   refine Sem_needTy_bind fun to hto => ?_
   subst hto
@@ -390,26 +422,26 @@ macro_rules
 
 /-! ### gen_expr arms without control flow -/
 
-theorem Sem_numArm (i : NInfo) (val : Int) (a b c d : Nat) : Sem (numArm i val a b c d) 0 (xOf i.ty) 0 := by
+theorem Sem_numArm (i : NInfo) (val : Int) (a b c d : Nat) : SemP K (numArm i val a b c d) 0 (xOf i.ty) 0 := by
   unfold numArm
   refine Sem_needTy_bind fun ty hty => ?_
   rw [hty, xOf_some]
   sem
 
-theorem Sem_negArm (i : NInfo) {lhs : M Unit} {xl : Int} (h : Sem lhs 0 xl 0) :
-    Sem (negArm i lhs) 0 xl 0 := by
+theorem Sem_negArm (i : NInfo) {lhs : M Unit} {xl : Int} (h : SemP K lhs 0 xl 0) :
+    SemP K (negArm i lhs) 0 xl 0 := by
   unfold negArm
   sem
 
-theorem Sem_bitfieldExtract (env : Env) (mem : Member) : Sem (bitfieldExtract env mem) 0 0 0 := by
+theorem Sem_bitfieldExtract (env : Env) (mem : Member) : SemP K (bitfieldExtract env mem) 0 0 0 := by
   unfold bitfieldExtract
   sem
 
 macro_rules
   | `(tactic| sem_leaf) => `(tactic| exact Sem_bitfieldExtract _ _)
 
-theorem Sem_memberArm (i : NInfo) {a : M Unit} (h : Sem a 0 0 0) (mem : Option Member) (env : Env) :
-    Sem (memberArm i a mem env) 0 (xOf i.ty) 0 := by
+theorem Sem_memberArm (i : NInfo) {a : M Unit} (h : SemP K a 0 0 0) (mem : Option Member) (env : Env) :
+    SemP K (memberArm i a mem env) 0 (xOf i.ty) 0 := by
   unfold memberArm
   have h1 := Sem_addrMember h mem
   sem
@@ -421,37 +453,37 @@ def bfX (env : Env) (bf : Option Member) : Int :=
   | none => 0
 
 theorem Sem_assignArm (env : Env) (i : NInfo) (bf : Option Member) {a r : M Unit} {xr : Int}
-    (ha : Sem a 0 0 0) (hr : Sem r 0 xr 0) : Sem (assignArm env i bf a r) 0 (xr + bfX env bf) 0 := by
+    (ha : SemP K a 0 0 0) (hr : SemP K r 0 xr 0) : SemP K (assignArm env i bf a r) 0 (xr + bfX env bf) 0 := by
   unfold assignArm bfX
   sem
 
-theorem Sem_notArm {lhs : M Unit} (lty : Option Ty) (h : Sem lhs 0 (xOf lty) 0) :
-    Sem (notArm lhs lty) 0 0 0 := by
+theorem Sem_notArm {lhs : M Unit} (lty : Option Ty) (h : SemP K lhs 0 (xOf lty) 0) :
+    SemP K (notArm lhs lty) 0 0 0 := by
   unfold notArm
   sem
 
-theorem Sem_memzeroArm (env : Env) (v : Option Var) : Sem (memzeroArm env v) 0 0 0 := by
+theorem Sem_memzeroArm (env : Env) (v : Option Var) : SemP K (memzeroArm env v) 0 0 0 := by
   unfold memzeroArm
   sem
 
 theorem Sem_exchArm (env : Env) {lhs rhs : M Unit} (lty : Option Ty) {xl xr : Int}
-    (hl : Sem lhs 0 xl 0) (hr : Sem rhs 0 xr 0) : Sem (exchArm env lhs lty rhs) 0 (xl + xr) 0 := by
+    (hl : SemP K lhs 0 xl 0) (hr : SemP K rhs 0 xr 0) : SemP K (exchArm env lhs lty rhs) 0 (xl + xr) 0 := by
   unfold exchArm
   sem
 
 
 theorem Sem_binopFlo (sz : String) (hsz : sz = "ss" ∨ sz = "sd") (op : BinOp) {lhs rhs : M Unit}
-    (hl : Sem lhs 0 0 0) (hr : Sem rhs 0 0 0) : Sem (binopFlo sz op lhs rhs) 0 0 0 := by
+    (hl : SemP K lhs 0 0 0) (hr : SemP K rhs 0 0 0) : SemP K (binopFlo sz op lhs rhs) 0 0 0 := by
   unfold binopFlo
   rcases hsz with rfl | rfl <;> cases op <;> sem
 
-theorem Sem_binopLd (op : BinOp) {lhs rhs : M Unit} (hl : Sem lhs 0 1 0) (hr : Sem rhs 0 1 0) :
-    Sem (binopLd op lhs rhs) 0 (if isCmp op then 0 else 1) 0 := by
+theorem Sem_binopLd (op : BinOp) {lhs rhs : M Unit} (hl : SemP K lhs 0 1 0) (hr : SemP K rhs 0 1 0) :
+    SemP K (binopLd op lhs rhs) 0 (if isCmp op then 0 else 1) 0 := by
   unfold binopLd
   cases op <;> sem
 
 theorem Sem_binopInt (i : NInfo) (op : BinOp) (lty : Ty) {lhs rhs : M Unit}
-    (hl : Sem lhs 0 0 0) (hr : Sem rhs 0 0 0) : Sem (binopInt i op lty lhs rhs) 0 0 0 := by
+    (hl : SemP K lhs 0 0 0) (hr : SemP K rhs 0 0 0) : SemP K (binopInt i op lty lhs rhs) 0 0 0 := by
   unfold binopInt
   cases op <;> sem
 
